@@ -55,6 +55,7 @@ var registry = map[string]runner{
 	"C10/chains":       w10.Chains,
 	"C10/malformed":    w10.Malformed,
 	"C10/child":        w10.Child,
+	"C10/decgrid":      w10.DecGrid,
 	"C11/dag":          w11.Run,
 	"C05/conflict":     w05.Run,
 	"C05/generated":    w05.Run,
